@@ -6,7 +6,7 @@ from .report import build, VERIF, HARNESS
 from .worker import Worker
 
 ASAN_PROFILE = "x86_64-unknown-linux-gnu/release"
-ASAN_ENV = {"ASAN_OPTIONS": "detect_leaks=0:abort_on_error=0:exitcode=77", "KV_AS_LIMIT_GIB": "0", "RUST_BACKTRACE": "0"}
+ASAN_ENV = {"ASAN_OPTIONS": "detect_leaks=0:abort_on_error=0:exitcode=77:hard_rss_limit_mb=3000:max_allocation_size_mb=3000", "KV_AS_LIMIT_GIB": "0", "RUST_BACKTRACE": "0"}
 
 def build_asan():
     ok, log = build("asan", "release", toolchain="nightly", extra_env={"RUSTFLAGS": "-Zsanitizer=address -Cforce-frame-pointers=yes"},
